@@ -54,12 +54,16 @@ def run(rng, tier, model_ok):
     unit_texts = [V.unit_expr(rng, nfactors=rng.choice([1, 1, 2, 3])) for _ in range(nlit)]
     parsed = dict(zip(unit_texts, unitlib.impl_units(unit_texts)))
     quantities = []          # (text, names)
+    zero_valued = set()
     for u in unit_texts:
         na = parsed[u]
         if na and not V.has_offset(na):
             x = Fraction(rng.randint(1, 999), rng.choice([1, 2, 10]))
             quantities.append(("%s %s" % (gens_dec(x), u), na))
-    zero_valued = set()
+            if rng.random() < 0.15:
+                z = "%s %s" % (rng.choice(["0", "0.0", "0e3"]), u) if rng.random() < 0.7 else "(%s %s - %s %s)" % (gens_dec(x), u, gens_dec(x), u)
+                quantities.append((z, na))
+                zero_valued.add(z)
     for p, v in facts:
         quantities.append((p, v[2]))
         if v[0] == 0:
@@ -113,6 +117,39 @@ def run(rng, tier, model_ok):
         stats["sub_self"] += 1
         relations.append(("one", add("%s / %s" % (a, P(a) if " " in a and not isfact else a)), a in zero_valued))
         stats["div_self"] += 1
+    # operands that use the SAME unit names with different powers and still have equal dimensions (two names of one dimension)
+    groups = [["m", "ft", "mi", "yd", "in", "km"], ["s", "hr", "min", "dy"], ["kg", "lb", "oz", "g"], ["l", "gal", "tsp"], ["J", "btu", "eV"]]
+    gw = sorted({w for g in groups for w in g})
+    gread = dict(zip(gw, unitlib.impl_units(gw)))
+    absolute = []          # (index, expected SI, expected dims)
+    for _ in range(60 if tier == "quick" else 900):
+        g = rng.choice(groups)
+        u1, u2 = rng.sample(g, 2)
+        if not gread.get(u1) or not gread.get(u2) or V.dims(gread[u1]) != V.dims(gread[u2]) or gread[u1][0][0] == gread[u2][0][0]:
+            continue
+        tot = rng.choice([0, 1, 2, -1])
+        a = rng.choice([-2, -1, 1, 2, 3])
+        c = rng.choice([x for x in (-2, -1, 1, 2, 3) if x != a])
+        b, d = tot - a, tot - c
+        if b == 0 or d == 0:
+            continue
+
+        def spell(p, q):
+            return "%s^%d*%s^%d" % (u1, p, u2, q)
+
+        def si_of(x, p, q):
+            return x * V.scale(gread[u1]) ** p * V.scale(gread[u2]) ** q
+        x, y = Fraction(rng.randint(1, 99), rng.choice([1, 2, 10])), Fraction(rng.randint(1, 99), rng.choice([1, 4]))
+        A, B = "%s %s" % (gens_dec(x), spell(a, b)), "%s %s" % (gens_dec(y), spell(c, d))
+        dims = {k: v * tot for k, v in V.dims(gread[u1]).items() if v * tot != 0}
+        i1, i2 = add("%s + %s" % (A, B)), add("%s + %s" % (B, A))
+        relations.append(("same", i1, i2))
+        absolute.append((i1, si_of(x, a, b) + si_of(y, c, d), dims))
+        i3 = add("%s - %s" % (A, B))
+        absolute.append((i3, si_of(x, a, b) - si_of(y, c, d), dims))
+        i4 = add("%s to %s" % (A, spell(c, d)))
+        absolute.append((i4, si_of(x, a, b), dims))
+        stats["same_names_other_powers"] = stats.get("same_names_other_powers", 0) + 1
     corpus = vlib.load_corpus("C13")
     off = len(corpus)
     items2 = [(q, None) for q in corpus] + items
@@ -123,6 +160,10 @@ def run(rng, tier, model_ok):
         if v is None:
             return None
         return V.si(v[0], v[1], v[2]), V.dims(v[2])
+    for i, want, dims in absolute:
+        got = norm(i)
+        if got is None or got[0] != want or got[1] != dims:
+            failures.append({"input": items[i][0], "why": "the result is %s, the operands give SI %s with dimensions %s" % (got, want, dims)})
     for rel in relations:
         if rel[0] == "same":
             x, y = norm(rel[1]), norm(rel[2])
